@@ -2,7 +2,7 @@
    recursion arithmetic of the code that consumes untrusted bytes).
    Statements only; proofs are `exact` of lemmas in coq/C05/. *)
 From Coq Require Import ZArith List Bool Arith.
-From GD Require Import C05.Recurse C05.RecurseProofs C05.SieRead C05.SieReadProofs C05.GetIndex.
+From GD Require Import C05.Recurse C05.RecurseProofs C05.SieRead C05.SieReadProofs C05.GetIndex C05.LzmaWindow C05.LzmaWindowProofs.
 Import ListNotations.
 
 (* --- circular / over-deep field definitions ------------------------------ *)
@@ -64,6 +64,44 @@ Theorem sie_seek_loop_terminates :
   forall extra x sample,
     seek_loop (S (length (rest x)) + extra) x sample = seek_loop (S (length (rest x))) x sample.
 Proof. exact seek_loop_fuel_enough. Qed.
+
+(* --- the LZMA decode window (src/lzma.c), for every buffer size, look-back
+       size, sample size, stream, and every behaviour of liblzma within the
+       contract ok_resp ------------------------------------------------------ *)
+Theorem lzma_window_invariant_steps :
+  forall DOUT LB size L orc, 0 < size -> size - 1 <= LB -> LB <= DOUT -> 0 <= L ->
+    (forall s nreq, Inv DOUT L s -> ok_resp DOUT L s nreq (orc s nreq)) ->
+    Inv DOUT L fresh /\
+    (forall s nreq, Inv DOUT L s -> Inv DOUT L (ready_call size orc s nreq) /\ cursor (ready_call size orc s nreq) = cursor s) /\
+    (forall s part, Inv DOUT L s -> 0 <= part -> part <= ready s -> part <= LB ->
+        Inv DOUT L (clear LB s part) /\ cursor (clear LB s part) = tout s - part).
+Proof. exact lzma_steps_uniform. Qed.
+
+(* a read never copies from outside the filled part of the buffer nor more than
+   was asked for; what it hands out is exactly count*size contiguous bytes of
+   the decoded stream starting at the cursor, and the cursor advances by that *)
+Theorem lzma_read_returns_contiguous_stream_bytes :
+  forall DOUT LB size L orc, 0 < size -> size - 1 <= LB -> LB <= DOUT -> 0 <= L ->
+    (forall s nreq, Inv DOUT L s -> ok_resp DOUT L s nreq (orc s nreq)) ->
+    forall fuel s nmemb, Inv DOUT L s -> 0 <= nmemb ->
+    let '(s', n, out) := lzma_read LB size orc fuel s nmemb in
+    Inv DOUT L s' /\ 0 <= n <= nmemb /\ chain (cursor s) out (cursor s') /\ total out = n * size
+    /\ cursor s' = cursor s + n * size /\ cursor s' <= L.
+Proof. exact lzma_read_uniform. Qed.
+
+(* a seek (forward, backward with rewind, or inside the window) leaves the cursor
+   on the target byte, or at the end of what could be decoded *)
+Theorem lzma_seek_lands_on_target_or_end :
+  forall DOUT LB size L orc, 0 < size -> size - 1 <= LB -> LB <= DOUT -> 0 <= L ->
+    (forall s nreq, Inv DOUT L s -> ok_resp DOUT L s nreq (orc s nreq)) ->
+    forall fuel s bc, Inv DOUT L s -> 0 <= bc ->
+    let s' := lzma_seek DOUT LB size orc fuel s bc in
+    Inv DOUT L s' /\ (cursor s' = bc \/ (cursor s' = tout s' /\ tout s' < bc)).
+Proof. exact lzma_seek_spec. Qed.
+
+Theorem lzma_decoder_contract_satisfiable :
+  forall DOUT L s nreq, Inv DOUT L s -> ok_resp DOUT L s nreq (full_orc DOUT L s nreq).
+Proof. exact full_orc_ok. Qed.
 
 (* --- LINTERP table index --------------------------------------------------- *)
 Local Close Scope Z_scope.
